@@ -45,8 +45,13 @@ RECURSIVE WidthFrom(_, _)
 WidthFrom(lay, k) == IF k > Len(lay) THEN 0 ELSE lay[k][2] + WidthFrom(lay, k + 1)
 Width(lay) == WidthFrom(lay, 1)
 Idx(lay, name) == CHOOSE k \in 1..Len(lay) : lay[k][1] = name
-Lo(lay, name) == WidthFrom(lay, Idx(lay, name) + 1)      \* bits to the right of the field
-Wd(lay, name) == lay[Idx(lay, name)][2]
+Layouts == {Header, EdnsHi, EdnsLo}
+FieldNames(lay) == {lay[k][1] : k \in 1..Len(lay)}
+(* bits to the right of the field / its width, tabulated once per layout *)
+LoT == [lay \in Layouts |-> [n \in FieldNames(lay) |-> WidthFrom(lay, Idx(lay, n) + 1)]]
+WdT == [lay \in Layouts |-> [n \in FieldNames(lay) |-> lay[Idx(lay, n)][2]]]
+Lo(lay, name) == LoT[lay][name]
+Wd(lay, name) == WdT[lay][name]
 Get(lay, name, x) == Field(x, Lo(lay, name), Wd(lay, name))
 Put(lay, name, x, v) == WithField(x, Lo(lay, name), Wd(lay, name), v)
 MaskF(lay, name) == FieldMask(Lo(lay, name), Wd(lay, name))
@@ -76,11 +81,14 @@ DigitStr == "0123456789"
 Dec(v) == IF v < 10 THEN SubSeq(DigitStr, v + 1, v + 1) ELSE Dec(v \div 10) \o SubSeq(DigitStr, (v % 10) + 1, (v % 10) + 1)
 KnownBits(lay, names) == {Lo(lay, names[k]) : k \in 1..Len(names)}
 KnownTokens(lay, names, x) == SelectSeq(names, LAMBDA n : Get(lay, n, x) = 1)
-RECURSIVE UnknownTokens(_, _, _, _)
-UnknownTokens(lay, names, x, i) ==
+RECURSIVE UnknownTokens(_, _, _)
+UnknownTokens(kb, x, i) ==
     IF i > 15 THEN <<>>
-    ELSE (IF Bit(x, i) = 1 /\ i \notin KnownBits(lay, names) THEN <<"FLAG" \o Dec(i)>> ELSE <<>>) \o UnknownTokens(lay, names, x, i + 1)
-FlagTokens(lay, names, mask, x) == LET m == And(x, mask, 16) IN KnownTokens(lay, names, m) \o UnknownTokens(lay, names, m, 0)
+    ELSE (IF Bit(x, i) = 1 /\ i \notin kb THEN <<"FLAG" \o Dec(i)>> ELSE <<>>) \o UnknownTokens(kb, x, i + 1)
+FlagTokens(lay, names, mask, x) ==
+    LET m == And(x, mask, 16)
+        kb == KnownBits(lay, names)
+    IN  KnownTokens(lay, names, m) \o (IF AndNot(m, MaskOf(kb), 16) = 0 THEN <<>> ELSE UnknownTokens(kb, m, 0))
 RECURSIVE JoinFrom(_, _)
 JoinFrom(toks, k) == IF k > Len(toks) THEN "" ELSE (IF k > 1 THEN " " ELSE "") \o toks[k] \o JoinFrom(toks, k + 1)
 Join(toks) == JoinFrom(toks, 1)
